@@ -21,7 +21,7 @@ SAFE_METHODS = {
     list: {"append", "extend", "copy", "index", "count"},
     str: {"format", "title", "startswith", "endswith", "lower", "upper", "join", "replace", "split"},
     tuple: {"index", "count"},
-    set: {"add", "union", "copy"},
+    set: {"add", "union", "copy", "difference", "intersection", "issubset"},
 }
 EXTERNAL = {"itertools.chain": lambda *a: list(itertools.chain(*a)), "warnings.warn": lambda *a, **k: None}
 
